@@ -6,6 +6,7 @@ package main
 //   shape <expr-hex>                                   -> <tree shape> | ERR | PANIC:<kind> | HANG
 //   vd <expr-hex> <want T|F|U> <wf 0|1> <cur> <k> (<name> <value>){k}
 //                                                      -> ok | rej | ERR | PANIC:<divzero|uncomparable|nilderef|other> | HANG
+//   vdm …  many values of one struct type through one validator (sequence / interleaved / concurrent): c20m.go
 // `want` is the verdict of the independent evaluator below (documented precedence, left-to-right
 // associativity, float64 arithmetic, three-valued: U = the documentation gives no meaning to the
 // expression, e.g. bool + number).  `wf` = the expression is inside the property's quantifier.
@@ -14,11 +15,11 @@ package main
 import (
 	"math"
 	"os"
-	"time"
 	"reflect"
 	"regexp"
 	"strconv"
 	"strings"
+	"time"
 
 	"github.com/cloudwego/hertz/internal/tagexpr"
 	"github.com/cloudwego/hertz/pkg/app/server/binding"
@@ -288,7 +289,7 @@ func init() {
 // ---------------------------------------------------------------- expression trees
 
 type ex struct {
-	kind  string // num str bool nil sel grp bin len in re
+	kind  string // num str bool nil sel grp bin len in re hook id
 	op    string
 	l, r  *ex
 	num   float64
@@ -363,6 +364,10 @@ func (p *printer) raw(e *ex) string {
 			parts[i] = p.gap() + p.print(a) + p.gap()
 		}
 		return e.un + "in(" + strings.Join(parts, ",") + ")"
+	case "hook":
+		return e.un + "vdpt()"
+	case "id":
+		return e.un + "vdid(" + p.gap() + p.print(e.args[0]) + p.gap() + ")"
 	case "re":
 		s := e.un + "regexp(" + p.gap() + "'" + e.pat + "'" + p.gap()
 		if len(e.args) > 0 {
@@ -509,6 +514,12 @@ func specEval(e *ex, env *specEnv) sv {
 		return applyUnary(e.un, fieldSV(v, ok))
 	case "grp":
 		return applyUnary(e.un, specEval(e.l, env))
+	case "hook":
+		// a registered validator function that reports no error: true
+		return applyUnary(e.un, svBool(true))
+	case "id":
+		// a registered function that returns its argument
+		return applyUnary(e.un, specEval(e.args[0], env))
 	case "len":
 		v := specEval(e.args[0], env)
 		switch v.t {
@@ -960,6 +971,11 @@ func genC20(tier string, rng *Rng) {
 	if tier == "thorough" {
 		seqLen, nTyped, nAny, nMal, depth = 5, 300000, 100000, 200000, 6
 	}
+	// 0. thorough tier (also the directed search after a broken proof / correspondence, which is time-boxed):
+	//    a quick-sized portion of part 6 first, so that it is reached whatever the budget
+	if tier == "thorough" {
+		genVdm("quick", rng)
+	}
 	// 1. every operator sequence up to seqLen (shape of the tree: exhaustive), evaluated on numeric
 	//    and on boolean/mixed leaves
 	leafShapes := []string{"1", "$", "(B)$", "'a'", "true", "2.5", "(3)", "len($)", "nil", "-2"}
@@ -1034,7 +1050,9 @@ func genC20(tier string, rng *Rng) {
 		func() *ex { return &ex{kind: "in", args: []*ex{sel(""), num(1), num(2), &ex{kind: "str", str: "a"}}} },
 		func() *ex { return &ex{kind: "in", args: []*ex{sel(""), sel("")}} },
 		func() *ex { return &ex{kind: "re", pat: "^[a-c]+$"} },
-		func() *ex { return bin("==", bin("+", sel(""), &ex{kind: "str", str: "b"}), &ex{kind: "str", str: "ab"}) },
+		func() *ex {
+			return bin("==", bin("+", sel(""), &ex{kind: "str", str: "b"}), &ex{kind: "str", str: "ab"})
+		},
 		func() *ex { return bin("==", bin("-", bin("-", num(10), sel("")), num(1)), num(7)) },
 		func() *ex { return bin("!=", sel(""), &ex{kind: "nil"}) },
 		func() *ex { return bin("&&", bin("!=", sel(""), &ex{kind: "nil"}), bin(">", sel(""), num(0))) },
@@ -1105,6 +1123,8 @@ func genC20(tier string, rng *Rng) {
 			runOp([]string{"shape", hx([]byte(s))})
 		}
 	}
+	// 6. many values of one struct type through one validator: in sequence, interleaved, concurrently
+	genVdm(tier, rng)
 }
 
 func bin(op string, l, r *ex) *ex { return &ex{kind: "bin", op: op, l: l, r: r} }
